@@ -82,6 +82,11 @@ enum TH {
     Thin(ThinArc<Pay, Pay>),
     Fat(FatT),
     Sl(Arc<[Pay]>),
+    /// an arc-swap container shared by several threads (its last holder drops it: RefCnt::dec)
+    #[cfg(feature = "arc-swap")]
+    Swap(StdArc<arc_swap::ArcSwapAny<Arc<Pay>>>),
+    #[cfg(feature = "arc-swap")]
+    SwapThin(StdArc<arc_swap::ArcSwapAny<ThinArc<Pay, Pay>>>),
 }
 unsafe impl Send for TH {}
 
@@ -104,6 +109,10 @@ fn kind(h: &TH) -> &'static str {
         TH::Thin(_) => "ThinArc",
         TH::Fat(_) => "Arc<HeaderSlice<HeaderWithLength>>",
         TH::Sl(_) => "Arc<[T]>",
+        #[cfg(feature = "arc-swap")]
+        TH::Swap(_) => "ArcSwapAny<Arc>",
+        #[cfg(feature = "arc-swap")]
+        TH::SwapThin(_) => "ArcSwapAny<ThinArc>",
     }
 }
 
@@ -148,6 +157,15 @@ fn read(h: &TH) {
                 e.check("read of an Arc<[T]> element");
             }
         }
+        #[cfg(feature = "arc-swap")]
+        TH::Swap(s) => {
+            s.load().check("read through ArcSwapAny::load");
+        }
+        #[cfg(feature = "arc-swap")]
+        TH::SwapThin(s) => {
+            let g = s.load();
+            g.header.header.check("read through ArcSwapAny<ThinArc>::load");
+        }
     }
 }
 
@@ -181,6 +199,18 @@ fn clone_h(h: &TH, v: u8) -> TH {
         },
         TH::Fat(f) => TH::Fat(f.clone()),
         TH::Sl(s) => TH::Sl(s.clone()),
+        // a full handle out of the container (RefCnt::inc), or another reference to the container itself
+        #[cfg(feature = "arc-swap")]
+        TH::Swap(s) => match v % 3 {
+            0 => TH::Arc(s.load_full()),
+            1 => TH::Arc(arc_swap::Guard::into_inner(s.load())),
+            _ => TH::Swap(s.clone()),
+        },
+        #[cfg(feature = "arc-swap")]
+        TH::SwapThin(s) => match v % 2 {
+            0 => TH::Thin(s.load_full()),
+            _ => TH::SwapThin(s.clone()),
+        },
     }
 }
 
@@ -278,6 +308,28 @@ fn poll_write(h: &mut TH, v: u8, val: u64) -> bool {
             }
         },
         TH::Dyn(_) => false,
+        #[cfg(feature = "arc-swap")]
+        TH::Swap(s) => {
+            match v % 3 {
+                0 => s.store(Arc::new(Pay::new(val))),
+                1 => {
+                    let old = s.swap(Arc::new(Pay::new(val)));
+                    old.check("value swapped out of the container");
+                }
+                _ => {
+                    let cur = s.load_full();
+                    let prev = s.compare_and_swap(&cur, Arc::new(Pay::new(val)));
+                    prev.check("previous value of compare_and_swap");
+                }
+            }
+            false
+        }
+        #[cfg(feature = "arc-swap")]
+        TH::SwapThin(s) => {
+            let old = s.swap(ThinArc::from_header_and_iter(Pay::new(val), (0..2u32).map(|i| Pay::new(val + i as u64))));
+            old.header.header.check("ThinArc swapped out of the container");
+            false
+        }
         TH::Thin(t) => t.with_arc_mut(|a| match Arc::get_mut(a) {
             Some(p) => {
                 p.header_mut().set(val);
@@ -525,6 +577,10 @@ impl TsanEngine {
         let tlen = pick(c.p(1), 4);
         let thin: ThinArc<Pay, Pay> = ThinArc::from_header_and_iter(Pay::new(30), (0..tlen).map(|i| Pay::new(31 + i as u64)));
         let sl: Arc<[Pay]> = Arc::from((0..1 + pick(c.p(2), 3)).map(|i| Pay::new(40 + i as u64)).collect::<Vec<_>>());
+        #[cfg(feature = "arc-swap")]
+        let swap = StdArc::new(arc_swap::ArcSwapAny::new(s1.clone()));
+        #[cfg(feature = "arc-swap")]
+        let swap_thin = StdArc::new(arc_swap::ArcSwapAny::new(thin.clone()));
         let mut progs: Vec<ThreadProg> = (0..nthreads).map(|_| ThreadProg { pool: vec![], ops: vec![] }).collect();
         let mut sharing = [0u32; 4];
         for t in 0..nthreads {
@@ -549,7 +605,20 @@ impl TsanEngine {
                 progs[t].pool.push(TH::Sl(sl.clone()));
                 sharing[3] += 1;
             }
+            #[cfg(feature = "arc-swap")]
+            {
+                if c.p(9) & 1 == 1 && (t < 2 || b & 0x80 != 0) {
+                    progs[t].pool.push(TH::Swap(swap.clone()));
+                    sharing[1] += 1;
+                }
+                if c.p(9) & 2 == 2 && (t < 2 || b & 0x80 != 0) {
+                    progs[t].pool.push(TH::SwapThin(swap_thin.clone()));
+                    sharing[2] += 1;
+                }
+            }
         }
+        #[cfg(feature = "arc-swap")]
+        drop((swap, swap_thin));
         drop((s0, s1, thin, sl));
         for (k, op) in c.ops.iter().enumerate() {
             progs[k % nthreads].ops.push(*op);
